@@ -71,6 +71,10 @@ def generate(ck):
     descs.append({"cls": "single", "table": {"kind": "synthetic", "family": "falling", "prm": [0.9801815554428919, 0.44510113845084076, 0.6085067256192634], "n": 400, "p_lo": 50.0, "p_hi": 12000.0, "grid": "uniform", "seed": 582}, "nx": 40, "p_i": 11141.5296312227, "p_f": 557.076481561135, "r": 8, "t_end": 4.4182807181068, "levels": None, "ladder": False, "reused": False})
     # pseudopressure referenced to a pressure between p_f and p_i (negative at the fracture face)
     descs.append({"cls": "single", "table": {"kind": "synthetic", "family": "zlin", "prm": [0.4, 0.4, 0.5], "n": 200, "p_lo": 100.0, "p_hi": 9100.0, "grid": "uniform", "seed": 0, "datum": 0.45}, "nx": 50, "p_i": 7000.0, "p_f": 1500.0, "r": 8, "t_end": 8.0, "levels": None})
+    # a schedule held until the reservoir has completely relaxed to it (to rounding level) and changed
+    # only THEN: the second transient is as real as the first
+    descs.append({"cls": "single", "table": {"kind": "synthetic", "family": "ideal", "prm": [0.5, 0.5, 0.5], "n": 200, "p_lo": 100.0, "p_hi": 9100.0, "grid": "uniform", "seed": 0}, "nx": 40, "p_i": 8000.0, "p_f": 2000.0, "r": 8, "t_end": 100.0, "levels": [4000.0, 2000.0]})
+    descs.append({"cls": "single", "table": {"kind": "synthetic", "family": "zlin", "prm": [0.4, 0.4, 0.5], "n": 200, "p_lo": 100.0, "p_hi": 9100.0, "grid": "uniform", "seed": 0}, "nx": 25, "p_i": 7000.0, "p_f": 3000.0, "r": 8, "t_end": 240.0, "levels": [5000.0, 3000.0, 6000.0]})
     descs.append(dict(descs[0], decoy=True, ratio=0.5))
     descs.append(dict(descs[2], decoy=True, p_f=3000.0))
     for i in range(n):
@@ -101,6 +105,8 @@ def generate(ck):
             lv = rng.uniform(p_f, p_f + 0.9 * (p_i - p_f), k)
             lv[int(rng.integers(0, k))] = p_f
             d["levels"] = [float(v) for v in lv]
+        if d["levels"] and i % 7 == 4:
+            d["t_end"] = float(rng.uniform(60, 150)) * len(d["levels"])  # every level held until fully relaxed
         descs.append(d)
     return descs
 
